@@ -247,3 +247,5 @@ def run(R, ctx):
     hoist(R, ctx)
     c17.tail_only(R, ctx, "C01.order", ["utils::expressions_as_statement::expressions_as_statement"])
     reach_and_list(R, ctx)
+    from .. import loops
+    loops.index_removal_rule(R, ctx, "C01.index")
